@@ -31,6 +31,8 @@ pub fn blocks(thorough: bool) -> Vec<Block> {
         b.push(Block::new(u_corpus("U_large2", verif_seed() + 1, 6_000, &["a", "b"], (10, 24), (4, 9)), vec![Cfg::new(0)], "{}"));
         b.push(Block::new(Universe::new("U_adv(A_gcm)", A_GCM, 3, 1, false), neutral.clone(), d32));
         b.push(Block::new(Universe::new("U_adv(A_gcm)", A_GCM, 2, 2, false), vec![Cfg::new(0), Cfg::new(X | E)], "{}, x+e"));
+        b.push(Block::new(u_kind_pairs(2, 2, false), vec![Cfg::new(0), Cfg::new(X), Cfg::new(X | G | E | NA | NE)], "{}, x, x+g+e+na+ne"));
+        b.push(Block::new(u_runs(), neutral.clone(), d32));
     } else {
         b.push(Block::new(Universe::new("U_adv(A_cons)", A_CONS, 1, 5, false), n1.clone(), "<=1 of {g,x,e,na,ne}"));
         b.push(Block::new(Universe::new("U_adv(A_gcm)", A_GCM, 3, 2, false), vec![Cfg::new(0), Cfg::new(X)], "{}, x"));
@@ -50,6 +52,10 @@ pub fn blocks(thorough: bool) -> Vec<Block> {
         b.push(Block::new(u_corpus("U_large2", verif_seed() + 1, 100_000, &["a", "b"], (10, 24), (4, 9)), vec![Cfg::new(0), Cfg::new(NA | NE)], "{}, na+ne"));
         b.push(Block::new(Universe::new("U_adv(A_gc)", A_GC, 2, 3, true), vec![Cfg::new(0)], "{}"));
         b.push(Block::new(Universe::new("U_adv(A_meta)", A_META, 3, 1, false), neutral.clone(), d32));
+        b.push(Block::new(u_kind_pairs(2, 3, false), n1.clone(), "<=1 of {g,x,e,na,ne}"));
+        b.push(Block::new(u_kind_pairs(2, 2, true), neutral.clone(), d32));
+        b.push(Block::new(u_kind_pairs(3, 1, false), neutral.clone(), d32));
+        b.push(Block::new(u_runs(), neutral.clone(), d32));
     }
     b
 }
